@@ -296,3 +296,54 @@ func hParamBytes() {
 	verifReach("text-accepted")
 	verifAssert(ok && msg.fvals[0] == string(want), "C07: an accepted bytes parameter denotes exactly the stored bytes")
 }
+
+// hParamEnum: enum fields in URLs. A parameter is accepted when it is a value name of the enum or a plain
+// 32-bit integer literal (open enums), and then stored as exactly that number; anything else is rejected as
+// invalid_argument; a known number written into a URL is written by name and reads back.
+func hParamEnum() {
+	enum := &fakeEnum{name: "p.Color", values: &fakeEnumValues{list: []*fakeEnumValue{{name: "RED", num: 0}, {name: "G", num: 1}, {name: "BLUE5", num: 5}}}}
+	field := &fakeField{name: "f", kind: protoreflect.EnumKind, enum: enum}
+	fields := []protoreflect.FieldDescriptor{field}
+	msg := &fakeMsg{desc: newFakeMsgDesc("p.M", field)}
+	maxLen := 3
+	if verifTier() == 1 {
+		maxLen = 5
+	}
+	in := nondetBytes("param", verifChoose("len", maxLen)+1)
+	numOK, numVal, grey := refParamScalar(protoreflect.Int32Kind, in)
+	if grey {
+		return
+	}
+	var nameVal *fakeEnumValue
+	for _, v := range enum.values.list {
+		if v.name == string(in) {
+			nameVal = v
+		}
+	}
+	err := setParameter(msg, fields, string(in))
+	verifObsBool("accepted", err == nil)
+	verifObsInt("value", int64(int32(msg.fnum[0])))
+	verifReach("enum-decided")
+	if err != nil {
+		verifAssert(connect.CodeOf(err) == connect.CodeInvalidArgument, "C07: a parameter that names no enum value is rejected as invalid_argument")
+	}
+	verifAssert((err == nil) == (numOK || nameVal != nil), "C07: an enum parameter is accepted exactly when it is a value name or an integer literal")
+	if err != nil {
+		return
+	}
+	verifReach("enum-accepted")
+	want := int32(numVal)
+	if nameVal != nil {
+		want = int32(nameVal.num)
+	}
+	verifAssert(msg.fset[0] && int32(msg.fnum[0]) == want, "C07: an accepted enum parameter sets exactly the number it denotes")
+	text, gerr := getParameter(msg, fields, 0)
+	known := enum.values.ByNumber(protoreflect.EnumNumber(want)) != nil
+	verifAssert((gerr == nil) == known, "C07: an enum value with a name can be written into a URL")
+	if gerr != nil {
+		return
+	}
+	verifObsStr("url-text", text)
+	back := &fakeMsg{desc: msg.desc}
+	verifAssert(setParameter(back, fields, text) == nil && int32(back.fnum[0]) == want, "C07: an enum value written into a URL reads back as the same number")
+}
